@@ -35,6 +35,8 @@ def run(pid, tier):
     ctx.assumptions = list(getattr(mod, 'ASSUMPTIONS', []))
     broken = None
     try:
+        from coclint import rules as _rules
+        _rules.THOROUGH[0] = (tier == 'thorough')
         dbs, info = facts.build(tier)
         ctx.cover.update(coverage_info(dbs, info))
         failed = [t for s in info['sets'].values() for t in s['failed']]
@@ -52,6 +54,19 @@ def run(pid, tier):
         broken = str(ex)
     except Exception as ex:
         broken = 'internal error: %s\n%s' % (ex, traceback.format_exc()[-1500:])
+    if tier == 'thorough' and not broken and not os.environ.get('COCLS_NO_SELFTEST') and facts.REPO == '/repo':
+        # checker self-test, reported in the evidence and never part of the verdict: the property's hand-written mutants
+        # (scratch worktrees of /repo HEAD) must each make this check fire
+        try:
+            from coclint import mutate
+            t0 = time.time()
+            res = mutate.run([pid], limit=6, workers=6)
+            ctx.cover['checker_selftest'] = {'what': 'hand-written one-line mutants of this property applied to scratch worktrees of /repo HEAD; each must make this check exit 1 naming the expected rule (not part of the verdict)',
+                                             'mutants': len(res), 'caught': sum(1 for r in res if r[2].startswith('caught')),
+                                             'not_caught': [{'mutant': r[0], 'what': r[3], 'result': r[2][:200]} for r in res if not r[2].startswith('caught')],
+                                             'samples': [{'mutant': r[0], 'what': r[3]} for r in res[:6]], 'wall_s': round(time.time() - t0, 1)}
+        except Exception as ex:
+            ctx.cover['checker_selftest'] = {'error': str(ex)[:300]}
     return ctx.finish(broken)
 
 
